@@ -492,7 +492,19 @@ func (x *runner) stepPoint(gi int) {
 			ok = x.try(nm(how), func() {
 				q := x.recvPoint(ds)
 				l := q.EmbedLen()
-				p = q.Embed(r.Bytes(r.Intn(l+1)), vh.NewSeqStream(r.Bytes(16)))
+				// payload lengths at the boundaries: empty but non-nil, full, over-long
+				n := r.Intn(l + 1)
+				switch r.Intn(8) {
+				case 0, 1:
+					n = 0
+				case 2:
+					n = l
+				case 3:
+					n = l + 1 + r.Intn(8)
+				}
+				data := make([]byte, 0, n)
+				data = append(data, r.Bytes(n)...)
+				p = q.Embed(data, vh.NewSeqStream(r.Bytes(16)))
 			})
 		}
 		if ok {
